@@ -84,8 +84,37 @@ def strip_copy(t):
     return t
 
 
+def _is_arg_value(t):
+    x = t
+    while x.op in ("memval", "mem", "ref"):
+        x = x.args[0]
+    return x.op == "arg" and x.args[1] == 2
+
+
+def _strip_some_payload(x):
+    """value bound by `let Some(v) = value`: the Some payload of *value, as a value (field/downcast) or as an object path (pf/pd)"""
+    y = x
+    while y.op in ("memval", "mem", "ref"):
+        y = y.args[0]
+    if y.op == "field" and y.args[1] == 0 and y.args[0].op == "downcast" and y.args[0].args[1] == 1:
+        return y.args[0].args[0]
+    if y.op == "pf" and y.args[1] == 0 and y.args[0].op == "pd" and y.args[0].args[1] == 1:
+        return y.args[0].args[0]
+    return x
+
+
 def extract_decode(prog, f):
-    """-> dict(carrier, kind, bits, W, p, dt, c, b, inv, optional) or (None, reason)"""
+    """-> dict(carrier, kind, bits, W, p, dt, c, b, inv, optional) or (None, reason).  Tried on the SSA terms first and, if the
+    shape is not recognised, with every phi resolved along each path (so `Ok(if c { a } else { b })` reads like two returns)."""
+    r = _extract_decode(prog, f, False)
+    if r[0] is None:
+        r2 = _extract_decode(prog, f, True)
+        if r2[0] is not None:
+            return r2
+    return r
+
+
+def _extract_decode(prog, f, resolve):
     fa = FA(f, prog)
     names = fa.names
     parses = [(b, t) for b, t in f.calls() if callee_of(t) == PARSE]
@@ -110,7 +139,7 @@ def extract_decode(prog, f):
     vals = []
     none_facts = []
     p_term = None
-    for blocks, facts, rv, flist in enum_paths(fa):
+    for blocks, facts, rv, flist in enum_paths(fa, resolve=resolve):
         if rv.op == "call" and "from_residual" in rv.args[0]:
             continue
         if not (rv.op == "agg" and rv.args[2] == "Ok"):
@@ -183,6 +212,11 @@ def extract_encode(prog, f):
             return None, "put carrier/width not constant"
         gs = fa.guards(b)
         isnone = [x for x in gs if x[0].op == "call" and x[0].args[0] == "core::option::Option::<T>::is_none"]
+        if not isnone:
+            # `let Some(v) = value else { .. }` / `match value { None => .. }`: the discriminant of *value is None (0)
+            for x in gs:
+                if x[0].op == "discr" and _is_arg_value(x[0].args[0]) and ((x[1] == "eq" and x[2] == 0) or (x[1] == "ne" and 1 in x[2])):
+                    isnone = [(x[0], "eq", 1)]
         if optional and is_const(a[1]) and isnone and ((isnone[0][1] == "ne" and 0 in isnone[0][2]) or (isnone[0][1] == "eq" and isnone[0][2] == 1)):
             m["inv"] = const_val(a[1])
             m["inv_carrier"] = g[0]
@@ -241,6 +275,7 @@ def extract_encode(prog, f):
     x = X
     if x.op == "call" and x.args[0] == "core::option::Option::<T>::unwrap":
         x = x.args[1][0]
+    x = _strip_some_payload(x)
     while x.op in ("memval", "mem"):
         x = x.args[0]
     if not (x.op == "arg" and x.args[1] == 2):
